@@ -350,7 +350,9 @@ mod imp {
         }
         let mut saw_malformed_err = false;
         for (k, (g, w)) in got.iter().zip(want.iter()).enumerate() {
-            if g.payload.starts_with(&[0xEF, 0xBB, 0xBF]) {
+            // (only meaningful for UTF-8 input with a BOM: in ISO-8859-10 the three bytes EF BB BF
+            // are the ordinary characters "ïŧŋ")
+            if bom && g.payload.starts_with(&[0xEF, 0xBB, 0xBF]) {
                 return Verdict::fail(format!("event {} carries the byte-order mark | {}", k, ctx()));
             }
             if decl && g.enc_after != enc.name() {
